@@ -313,6 +313,36 @@ class Inliner(object):
         h.body = self._block(h.body, fn, stack, inlined, depth)
     if depth >= self.max_depth:
       return [s]
+    # L = list(self.gen(...))  with a generator helper that never returns early  ->  L = []; <helper body, yield v -> L.append(v)>
+    if isinstance(s, ast.Assign) and len(s.targets) == 1 and isinstance(s.targets[0], ast.Name) and isinstance(s.value, ast.Call) and \
+       isinstance(s.value.func, ast.Name) and s.value.func.id == 'list' and len(s.value.args) == 1 and not s.value.keywords and \
+       isinstance(s.value.args[0], ast.Call) and depth < self.max_depth:
+      gcall = s.value.args[0]
+      callee = self._callee(gcall, fn)
+      lst = s.targets[0].id
+      if callee is not None and callee.key not in stack and self._simple(callee, gcall, generator=True) and \
+         not any(isinstance(x, ast.Return) for x in walk_no_nested(callee.node, include_self=False)) and \
+         not any(isinstance(x, ast.Name) and x.id == lst for x in ast.walk(gcall)):
+        ys = [x for x in walk_no_nested(callee.node, include_self=False) if isinstance(x, (ast.Yield, ast.YieldFrom))]
+        stmt_ys = [st for st in walk_no_nested(callee.node, include_self=False) if isinstance(st, ast.Expr) and isinstance(st.value, ast.Yield)]
+        if len(ys) == len(stmt_ys) and ys:
+          res = self._expand(gcall, callee, fn, stack, inlined, depth, 'generator')
+          if res is not None:
+            class Y(ast.NodeTransformer):
+              def visit_Expr(self, n):
+                if isinstance(n.value, ast.Yield):
+                  val = n.value.value if n.value.value is not None else ast.Constant(value=None)
+                  return ast.copy_location(ast.Expr(value=ast.Call(
+                    func=ast.Attribute(value=ast.Name(id=lst, ctx=ast.Load()), attr='append', ctx=ast.Load()), args=[val], keywords=[])), n)
+                return n
+
+              def visit_FunctionDef(self, n):
+                return n
+            init = ast.copy_location(ast.Assign(targets=[ast.Name(id=lst, ctx=ast.Store())], value=ast.List(elts=[], ctx=ast.Load())), s)
+            body = [Y().visit(st) for st in res[0]]
+            for st in [init] + body:
+              ast.fix_missing_locations(st)
+            return [init] + body
     # L = [helper(x) for x in xs]  ->  L = []; for x in xs: L.append(helper(x))   (so that the helper can be spliced)
     if isinstance(s, ast.Assign) and len(s.targets) == 1 and isinstance(s.targets[0], ast.Name) and isinstance(s.value, ast.ListComp) and \
        len(s.value.generators) == 1 and not s.value.generators[0].is_async and \
